@@ -47,16 +47,14 @@ def vectors(ctx, lane="P"):
     pats = [(b,) for b in rest] + list(itertools.combinations(rest, 2))
     for tc in list(range(9, 19)) + [20, 21, 22]:
         for k, pat in enumerate(pats):
-            if ctx.quick and (k + tc) % 3:
-                continue
-            fld = rng.choice([0x001, 0x015, 0x7FF, 0xC38, 0xFFF, rng.randrange(4096)])
-            f = gen.rand_frame_df(rng, 17)
-            f = gen.set_bits(f, 33, 88, 0)
-            f = gen.set_bits(f, 33, 37, tc)
-            for b in pat:
-                f = gen.set_bits(f, b, b, 1)
-            f = gen.set_bits(f, 41, 52, fld)
-            V.append({"fn": "adsb.altitude", "frame": f, "code": fld, "tc": tc})
+            for fld in (rng.choice([0x001, 0x015, 0x7FF, 0xC38, 0xFFF]), rng.randrange(1, 4096)):
+                f = gen.rand_frame_df(rng, 17)
+                f = gen.set_bits(f, 33, 88, 0)
+                f = gen.set_bits(f, 33, 37, tc)
+                for b in pat:
+                    f = gen.set_bits(f, b, b, 1)
+                f = gen.set_bits(f, 41, 52, fld)
+                V.append({"fn": "adsb.altitude", "frame": f, "code": fld, "tc": tc})
     for tc in range(32):
         for _ in range(ctx.pick(4, 40)):
             for df in (17, 18, 17, 20, 4, 11):
